@@ -91,7 +91,8 @@ func ones(n int) gen.Val {
 
 func c06CollidePool() []gen.Val {
 	return []gen.Val{gen.Num(1), gen.TimeV(1), gen.Dur(1), gen.Float(1.0), gen.Num(4607182418800017408), // bits of 1.0
-		gen.ListV(gen.Num(1)), gen.Num(65792), ones(6), ones(7), ones(8), gen.Name("/a"), gen.Str("a"), gen.Num(2)}
+		gen.ListV(gen.Num(1)), gen.Num(65792), ones(6), ones(7), ones(8), gen.Name("/a"), gen.Str("a"), gen.Num(2),
+		gen.Str("/a"), gen.PairV(gen.Num(1), gen.Str("x")), gen.PairV(gen.Num(1+1<<57), gen.Str("x")), gen.ListV(gen.Num(1 + 1<<56))}
 }
 
 var c06Preds = []struct {
